@@ -123,7 +123,19 @@ def generate(chk, prop, tier, seed):
             chk.add_tlc(r)
             chk.cov["tlc_runs"].append({"cfg": cfg, "generated": r.generated, "distinct": r.distinct, "behaviours": len(r.beh), "wall_s": r.wall_s})
             for b in r.beh:
-                behs.append({"fam": "streams", "stream": b["st"], "valid": b["valid"], "out": [], "ed": [{"t": "stream", "pos": 0, "a": 0, "b": 0}], "edited": []})
+                behs.append({"fam": "streams", "stream": b["st"], "valid": b["valid"], "wrap": b.get("wrap", "prog"), "out": [], "ed": [{"t": "stream", "pos": 0, "a": 0, "b": 0}], "edited": []})
+        # the same inside a SUBROUTINE / FUNCTION, the alphabet holding the END of that subprogram: END SUBROUTINE is an
+        # action-stmt (R214), yet no DO rule may take it as a terminator (C824 / C826); only the streams that hold it
+        for w in ("sub", "fun"):
+            cfg = "Streams_%s_%s.cfg" % (w, "quick" if tier == "quick" else "thorough")
+            r = tlc.run("MCStreams.tla", cfg, timeout=20000)
+            if not r.ok():
+                raise MachineryError("TLC failed on %s: %s %s" % (cfg, r.invariant_violated, r.error))
+            chk.add_tlc(r)
+            chk.cov["tlc_runs"].append({"cfg": cfg, "generated": r.generated, "distinct": r.distinct, "behaviours": len(r.beh), "wall_s": r.wall_s})
+            for b in r.beh:
+                if "endu" in b["st"]:
+                    behs.append({"fam": "streams-unit-end", "stream": b["st"], "valid": b["valid"], "wrap": b["wrap"], "out": [], "ed": [{"t": "stream", "pos": 0, "a": 0, "b": 0}], "edited": []})
     cfg = "Perturb_%s_sim.cfg" % low
     r = tlc.run("MCPerturb.tla", cfg, workers=8, simulate=dict(num=SIM_NUM[tier], depth=220), seed=seed + 7, timeout=6000)
     if not r.ok():
@@ -189,9 +201,10 @@ def build_case(prop, b):
             # not start in column 1, nothing in the label field): one line more, the same statement
             deep = "  ! free form: this comment starts in column 3\n" + "".join("      " + l + "\n" for _, l in lay["phys"])
             jobs.append(dict(name="deep", src=deep, std=std, ic=True))
-    elif prop == "C08" and b.get("fam") == "streams":
-        body = "\n".join("  " + STREAM_TEXT[a] for a in b["stream"])
-        jobs = [dict(name="E", src="program u1\n" + body + "\nend program u1\n", std=std, ic=True)]
+    elif prop == "C08" and b.get("fam") in ("streams", "streams-unit-end"):
+        head, end = WRAP_TEXT[b.get("wrap", "prog")]
+        body = "\n".join("  " + (end if a == "endu" else STREAM_TEXT[a]) for a in b["stream"])
+        jobs = [dict(name="E", src=head + "\n" + body + "\n" + end + "\n", std=std, ic=True)]
         meta = {"valid": b["valid"]}
     elif prop == "C08":
         others = [e for e in ed if e["t"] in ("cmt", "cpp")]
@@ -306,6 +319,7 @@ def build_case(prop, b):
     return {"id": b["id"], "jobs": jobs, "meta": meta, "fam": b["fam"], "out": out, "ed": ed, "beh_extra": {k: b[k] for k in ("leaves", "valid", "stream") if k in b}}
 
 
+WRAP_TEXT = {"prog": ("program u1", "end program u1"), "sub": ("subroutine u1", "end subroutine u1"), "fun": ("function u1()", "end function u1")}
 STREAM_TEXT = {"s": "x = 1", "s10": "10 x = 1", "if": "if (x > 0) then", "ifn": "c1: if (x > 0) then", "else": "else", "endif": "end if", "endifn": "end if c1",
                "do": "do i = 1, n", "enddo": "end do", "dol10": "do 10 i = 1, n", "dol20": "do 20 j = 1, n", "cont10": "10 continue", "cont20": "20 continue",
                "enddo10": "10 end do", "blk": "block", "endblk": "end block", "sel": "select case (i)", "case": "case (1)", "endsel": "end select"}
